@@ -9,6 +9,7 @@ import z3
 from lib.common import *
 from mirsym import strmodels   # noqa: registers the &str models
 from props.C06 import builtin_closures
+from props.numlib import SymNum, prefer_all
 
 PROP = 'C16'
 MIR = None
@@ -259,6 +260,34 @@ def shape_json_int(item, ob):
         ob.check(name + ' is the integer itself when it fits 64 bits', pc, goal, replay=replay, cls='C16/json int/value', prefer=pref, sample='Value::from(i64 n) iff n fits i64, for either representation'); ob.witness(v.variant if v is not None else 'err')
     ob.absorb_engine(E)
 
+def shape_json_float(item, ob):
+    """json_encode of a float: the JSON number it becomes is value-equal to the float (the float itself through Value::from(f64), or an
+    integer JSON number with exactly that value) — so that json_decode(json_encode(v)) == v for every finite float"""
+    E = new_engine(MIR, [json_models]); f = find_fn(E, 'json_encode'); S = SymNum('Float', 'a')
+    def run():
+        E.assume(*S.pre); E.assume(S.k == 3)
+        return E.run_fn(f, [Adt('Obj', 'Num', [S.obj()])])
+    def replay(model):
+        c = S.concrete(model)
+        if c is None: return None
+        lit_ = repr(c[2]).replace('e+', 'e'); lit_ = f'({lit_})' if c[2] < 0 or str(c[2]).startswith('-') else lit_          # noulith reads 1e19, not 1e+19
+        if 'inf' in lit_ or 'nan' in lit_: return None
+        return {'program': f'json_decode(json_encode({lit_})) == {lit_}', 'expect': {'equals': 'OK 1'}}
+    pref = [[z3.And(z3.IsInt(S.v / 4096), S.v >= -(1 << 75), S.v <= (1 << 75))]] + prefer_all(S)
+    for pc, kd, res, lg in E.explore(run):
+        ob.paths += 1; name = 'json_encode(finite float)'
+        if kd == 'panic': ob.panic(name + ' panic-free', pc, res, replay=replay, cls='C16/json float/panic', prefer=pref); continue
+        if kd != 'ok': ob.missing(name, f'{kd}: {res}'); continue
+        v = res.fields[0] if res.variant == 'Ok' else None
+        if v is None or not (isinstance(v, Adt) and v.ty == 'JsonValue'): goal = z3.BoolVal(False)
+        elif v.variant == 'i64': goal = z3.ToReal(v.fields[0]) == S.v
+        else:
+            g = v.fields[0]
+            if isinstance(g, Adt) and g.ty == 'Option': g = g.fields[0] if g.variant == 'Some' else None
+            goal = z3.And(g.kind == 3, g.val == S.v, g.nz == S.nz) if isinstance(g, F64) else z3.BoolVal(False)
+        ob.check(name + ' is value-equal to the float', pc, goal, replay=replay, cls='C16/json float/value', prefer=pref, sample='Value::from(f64 f), or Value::from(i64 n) with n == f exactly'); ob.witness(v.variant if v is not None else 'err')
+    ob.absorb_engine(E)
+
 def shape_conv_str(item, ob):
     """int("ddd…") / number("ddd…") on a digit string of k symbolic digits (k up to 20, i.e. beyond 64 bits): the exact integer the text spells"""
     tname, k = item
@@ -326,7 +355,7 @@ def run_shape(item, ob):
     if fam == 'conv_str': return shape_conv_str(payload, ob)
     if fam == 'rational_dec': return shape_rational_dec(payload, ob)
     {'decimal': shape_decimal, 'rational': shape_rational, 'str_radix': shape_str_radix, 'int_radix': shape_int_radix, 'roundtrip': shape_roundtrip, 'fmt': shape_fmt,
-     'json_int': shape_json_int}[fam](payload, ob)
+     'json_int': shape_json_int, 'json_float': shape_json_float}[fam](payload, ob)
 
 def main(tier, seed, t0):
     global MIR
@@ -355,6 +384,7 @@ def main(tier, seed, t0):
         items.append(('roundtrip', (b, 3)))
     for k in range(5): items.append(('fmt', k))
     for rep in ('Small', 'Big'): items.append(('json_int', (rep,)))
+    items.append(('json_float', ()))
     for tname in ('Int', 'Number'):
         for k in (1, 3, 19, 20): items.append(('conv_str', (tname, k)))
     for form in ('d.d/d', 'd/d.d', 'd/0.d', 'd.d/d.d', '0.d/d'): items.append(('rational_dec', (form,)))
@@ -364,5 +394,5 @@ def main(tier, seed, t0):
         kernels=['decimal.rs: parse_decimal_exactly, parse_rational_exactly, apply_exp10', 'lib.rs closures: str_radix, int_radix', 'nint.rs: Display/LowerHex/UpperHex/Binary/Octal for NInt'],
         bounds={'decimal strings': f'sign in {{none,+,-}}, 0..{maxd} integer digits, optional point with 0..{maxd} fraction digits, optional exponent of 1-2 digits (exact) or 10 digits (panic-freedom only); digits symbolic',
                 'p/q': '1-2 digits each', 'radix': f'bases {bases}; n < base^3 in both representations and signs; digit strings of 0..3 printable ASCII chars'},
-        outside=['base64/gzip/serde_json/UTF-8 codecs (third-party crates)', 'digit generation of std/num formatters', 'float parsing/printing (std)', 'longer digit strings', 'chr/ord, json_decode and the non-integer arms of json_encode'],
+        outside=['base64/gzip/serde_json/UTF-8 codecs (third-party crates)', 'digit generation of std/num formatters', 'float parsing/printing (std)', 'longer digit strings', 'chr/ord, json_decode and the string / list / dict arms of json_encode'],
         assumptions=['num-bigint FromStr accepts [+-]digits (underscore separators are not generated by the harness)', 'ASCII input (byte offsets == char offsets)'])
